@@ -5,18 +5,19 @@ V = os.path.dirname(os.path.abspath(__file__))
 rows = []
 for d in sorted(os.listdir(os.path.join(V, 'seeded'))):
     m = json.load(open(os.path.join(V, 'seeded', d, 'meta.json')))
-    wave = next(w for w in '12345' if ('wave ' + w) in m['origin'])
+    wave = next(w for w in '123456' if ('wave ' + w) in m['origin'])
     v = m['verdicts']
     main = v.get(m['breaks_property'], '')
     rows.append((wave, d, m['breaks_property'], main.startswith('MISSED'), main, {k: x for k, x in v.items() if k != m['breaks_property']}))
-per = {w: (sum(1 for r in rows if r[0] == w), sum(1 for r in rows if r[0] == w and r[3])) for w in '12345'}
+per = {w: (sum(1 for r in rows if r[0] == w), sum(1 for r in rows if r[0] == w and r[3])) for w in '123456'}
 total = len(rows); missed = sum(1 for r in rows if r[3])
 out = []
 out.append('''## 9. Seeded changes written by independent sub-agents
 
-Five waves of fresh sub-agents, each given only the text of one property (from
+Six waves of fresh sub-agents, each given only the text of one property (from
 wave 3 on additionally a one-line hint naming clauses of that same statement
-to aim at, different per wave) and a scratch worktree of `/repo`, produced one
+to aim at, different per wave; in wave 6 the whole property record and one
+assigned mechanism from its anchors to break) and a scratch worktree of `/repo`, produced one
 change each that breaks the property, compiles and passes the existing tests,
 together with a demonstration test. Each was kept only after `import_seed.sh`
 had confirmed in a fresh worktree: demonstration passes without the patch,
@@ -35,8 +36,8 @@ are now reported by the quick tier. Two of the extensions found defects in the
 showed that one earlier repair had made an existing test flaky (row 14).
 
 | wave | change | property | verdict of the owning check (quick tier) |
-|---|---|---|---|''' % (' + '.join(str(per[w][0]) for w in '12345'), total, total - missed, missed,
-         ', '.join('wave %s: %d' % (w, per[w][1]) for w in '12345'), total))
+|---|---|---|---|''' % (' + '.join(str(per[w][0]) for w in '123456'), total, total - missed, missed,
+         ', '.join('wave %s: %d' % (w, per[w][1]) for w in '123456'), total))
 for wave, d, prop, m, main, others in rows:
     out.append('| %s | `%s` | %s | %s |' % (wave, d, prop, main.replace('|', '\\|')))
 out.append('''
@@ -58,7 +59,13 @@ files):
   bounded broker back-ends only at capacity 2 (C09, wave 1); inputs that are
   always finite and promptly fed, so that no `ReadOne` is ever parked on its
   input when `Close` arrives (C04); no broker context with a deadline (C09);
-  JSON documents without `null`, `Wrapf` templates without `%w` (C02, C12).
+  JSON documents without `null`, `Wrapf` templates without `%w` (C02, C12);
+  pool inputs that are never slower than the functions they yield (C01); no
+  `ErrCurrentOpAbort` from a Transform, no panic with a multi-error value (C02,
+  C03); no source that had been advanced before it was wrapped (C04); group
+  members that are always fresh (C11); work always launched with the same live
+  context the waiters use (C14, C15); subscribers that never take their time
+  (C08); a queue never closed before its removals had finished (C20).
 * **oracle narrower than the statement**: only calls *invoked after* the last
   `Limit` execution were compared with its result (C15); under removals the
   iterator was only required not to panic and to return on Close/cancel, not
